@@ -157,16 +157,21 @@ def compute_pipeline_semantic_id(canonical_spec: Dict[str, Any]) -> str:
     """
 
     # Use the structure of nodes (names, inputs, outputs) but not runtime details
-    pipeline_structure = {
-        "nodes": [
-            {
-                "name": node.get("name"),
-                "node_uuid": node.get("node_uuid"),
-                "payload_from": node.get("payload_from"),
-            }
-            for node in canonical_spec.get("nodes", [])
-        ]
-    }
+    entries = []
+    for node in canonical_spec.get("nodes", []):
+        entry = {
+            "name": node.get("name"),
+            "node_uuid": node.get("node_uuid"),
+            "payload_from": node.get("payload_from"),
+        }
+        # Sweep nodes share a generic processor_ref, so their node_uuid does not
+        # depend on the sweep definition: fold the sanitized preprocessor
+        # fingerprint in (nodes without a preprocessor are unchanged).
+        pre = node.get("preprocessor_metadata")
+        if isinstance(pre, dict):
+            entry["node_semantic_id"] = compute_node_semantic_id(pre)
+        entries.append(entry)
+    pipeline_structure = {"nodes": entries}
     payload = json.dumps(pipeline_structure, sort_keys=True, separators=(",", ":"))
     return (
         "plsemid-"
